@@ -3,7 +3,7 @@
    Model: Model/Coord.v (one internal label = one atomic task step, unconstrained scheduler).
 *)
 From Coq Require Import ZArith NArith List Bool Arith.
-From NSG Require Import Base.Prelude Model.Defender Model.Coord Proofs.CoordBase Proofs.CoordInv Proofs.CoordInvConn Proofs.CoordInvDispatch Proofs.CoordInvHandler Proofs.CoordProps Proofs.CoordDirect Proofs.CoordInv2 Proofs.CoordAgentStep Proofs.CoordBarrier Proofs.CoordMeasure Proofs.CoordIsolation Proofs.CoordLimit.
+From NSG Require Import Base.Prelude Model.Defender Model.Coord Proofs.CoordBase Proofs.CoordInv Proofs.CoordInvConn Proofs.CoordInvDispatch Proofs.CoordInvHandler Proofs.CoordProps Proofs.CoordDirect Proofs.CoordInv2 Proofs.CoordAgentStep Proofs.CoordBarrier Proofs.CoordMeasure Proofs.CoordIsolation Proofs.CoordLimit Proofs.CoordKinds.
 Import ListNotations.
 
 (* token conservation, in EVERY reachable state and for every connection: a request that was read and not yet answered is in exactly one place - the action queue, a handler task, or the response queue; a connection that is not waiting has none *)
@@ -103,6 +103,25 @@ Theorem C01_no_livelock :
        @length (@label G) ls <= @mu V W G s.
 Proof. exact (@bounded_internal_runs_reachable). Qed.
 
+(* the answer fits the question: a handler step puts at most one item on a response queue, on the queue of the connection it works for, and the item fits the request it was spawned for (JoinGame: CREATED / BAD_REQUEST; ResetGame: RESET_DONE / BAD_REQUEST; game action: OK / FORBIDDEN / BAD_REQUEST; QuitGame: close) *)
+Theorem C01_answer_fits :
+  forall (V W G : Type) (wstep : W -> V -> G -> W * V) (winit : W -> role -> W * V)
+         (goal : role -> V -> bool) (detect : list G -> G -> bool) (cfg : config) 
+         (s s' : @state V W G) (h : @handler V G),
+       @h_wake V W G wstep winit goal detect cfg s h = @Some (@state V W G) s' ->
+       @one_answer V W G s s' (@h_addr V G h) (@kind_of_pc V G (@h_pc V G h)).
+Proof. exact (@h_wake_answer). Qed.
+
+(* and a handler that is held at a barrier keeps the kind of its request, so the eventual answer fits too *)
+Theorem C01_keeps_kind :
+  forall (V W G : Type) (wstep : W -> V -> G -> W * V) (winit : W -> role -> W * V)
+         (goal : role -> V -> bool) (detect : list G -> G -> bool) (cfg : config) 
+         (s s' : @state V W G) (h h' : @handler V G),
+       @h_wake V W G wstep winit goal detect cfg s h = @Some (@state V W G) s' ->
+       @In (@handler V G) h' (@handlers V W G s') ->
+       @h_id V G h' = @h_id V G h -> @kind_of_pc V G (@h_pc V G h') = @kind_of_pc V G (@h_pc V G h).
+Proof. exact (@h_wake_keeps_kind). Qed.
+
 (* a handler parked at a barrier always belongs to a registered agent (its continuation cannot fail) *)
 Theorem C01_parked_have_agents :
   forall (V W G : Type) (wstep : W -> V -> G -> W * V) (wreset : W -> W) (winit : W -> role -> W * V)
@@ -154,6 +173,8 @@ Print Assumptions C01_quiescent.
 Print Assumptions C01_idle_unmet.
 Print Assumptions C01_progress.
 Print Assumptions C01_no_livelock.
+Print Assumptions C01_answer_fits.
+Print Assumptions C01_keeps_kind.
 Print Assumptions C01_parked_have_agents.
 Print Assumptions C01_garbage_answered.
 Print Assumptions C01_dispatcher_alive.
